@@ -305,6 +305,8 @@ CASES = [
     ("window", "from a\nselect {id, x, y}\nsort id\ntake 5\ngroup y (window rows:-1..0 (sort id | derive {s = sum x}))\nselect {id, s}\nsort id\n", [(1, 5), (2, 11), (3, 7), (4, 8), (5, 15)]),
     ("join filter", "from a\nselect {id, x, y}\nsort id\ntake 3\njoin b (b.id == a.id && b.w > a.y)\nselect {a.id, b.w}\nsort id\n", [(1, 10), (2, 20)]),
     ("sort in take", "from a\nselect {id, x, y}\nsort id\ntake 5\nsort {-y, id}\ntake 2\nselect {id}\n", [(3,), (1,)]),
+    # the sort a take carries must follow the column ids across a split, also behind a join (round-7 seed C03-13)
+    ("sort of a take behind a join", "from a\nselect {id, x, y}\nsort {-x}\ntake 5\njoin side:left b (==id)\ntake 2..4\nfilter a.y == 5\nselect {a.id, a.x, b.w}\n", [(2, 6, 20)]),
     ("aggregate", "from a\nselect {id, x, y}\nsort id\ntake 5\ngroup y (aggregate {n = count this, s = sum x})\nsort y\n", [(1, 1, 8), (5, 3, 20), (9, 1, 7)]),
 ]
 
